@@ -256,3 +256,229 @@ Theorem C07_xml_rename_needs_null_fixed :
        xml_encode XmlFileFacts.e0 EWriteUnknown d [1].
 Proof. exact rename_needs_null_fixed. Qed.
 
+(* ==== THE RE-SAVE FIXED POINT AS A THEOREM (Proofs/ResaveFixedPoint.v), composing the whole-file round trips with the function-of-content
+   theorems.  XML: save (load (save d)) = save (norm_dom d) — an equality of results, Ok or the same failure —, where norm_dom replaces each value
+   by its normal form and nulls Refs to unwritten instances; with the normalisation idempotent (proved per type for the 26 simple types),
+   save (load (save d1)) = save d1 for d1 = load (save d): load/save is a fixed point after the first save.  In which respects the FIRST save can
+   differ is proved by witnesses: a Ref to an unwritten instance is written as a referent no Item carries, read as null and re-saved as `null`,
+   which shifts later referent numbers (the recorded dangling-ref class); a NaN payload is normalised in the loaded DOM but invisible in the events.
+   Binary: encode_file depends on the DOM only through the written instances (encode_file_shape; fuel sufficient);
+   encode_file (decode_file (encode_file dom)) = encode_file (bnorm_dom dom) for properties unknown to the database of the simple column types
+   under any compressor, for databases whose defaults hold no non-null Ref; the fixed point after it is computed on an instance
+   (bin_resave_chain_example), not yet a theorem. *)
+From RbxVerif Require Import XmlStructure XmlRoundTrip BinPostorder ResaveFixedPoint.
+From RbxVerif Require BinRoundTrip.
+
+Theorem C07_xml_resave :
+  forall (e : xenv) (ebeh : ebehavior) (dbeh : dbehavior) (d : cdom) (roots : list N)
+         (norm : value -> value) (evs : list wevent) (revs : list revent),
+       input_ok d roots ->
+       plain_mode e ebeh dbeh d roots ->
+       hash_ok e ->
+       norm_law e d roots norm ->
+       xml_encode e ebeh d roots = Ok evs ->
+       channel evs = Ok revs ->
+       exists d1 : cdom,
+         xml_decode e dbeh revs = Ok d1 /\
+         same_forest e d roots d1 /\
+         forest_rel d roots d1 /\
+         Forall2 (values_back d (written d roots) norm) (written d roots) d1 /\
+         ordered (N.of_nat (Datatypes.length d1)) d1 /\
+         xml_encode e ebeh d1 (children_of d1 0) =
+         xml_encode e ebeh (norm_dom (written d roots) norm d) roots.
+Proof. exact xml_resave. Qed.
+
+Theorem C07_xml_resave_fixed_point :
+  forall (e : xenv) (ebeh : ebehavior) (dbeh : dbehavior) (d : cdom) (roots : list N)
+         (norm : value -> value) (evs : list wevent) (revs : list revent),
+       input_ok d roots ->
+       plain_mode e ebeh dbeh d roots ->
+       hash_ok e ->
+       norm_law e d roots norm ->
+       norm_idem e d roots norm ->
+       xml_encode e ebeh d roots = Ok evs ->
+       channel evs = Ok revs ->
+       exists d1 : cdom,
+         xml_decode e dbeh revs = Ok d1 /\
+         xml_encode e ebeh d1 (children_of d1 0) =
+         xml_encode e ebeh (norm_dom (written d roots) norm d) roots /\
+         (forall (evs2 : list wevent) (revs2 : list revent),
+          xml_encode e ebeh d1 (children_of d1 0) = Ok evs2 ->
+          channel evs2 = Ok revs2 ->
+          exists d2 : cdom,
+            xml_decode e dbeh revs2 = Ok d2 /\ xml_encode e ebeh d2 (children_of d2 0) = Ok evs2).
+Proof. exact xml_resave_fixed_point. Qed.
+
+Theorem C07_xml_resave_simple_types :
+  forall (e : xenv) (ebeh : ebehavior) (dbeh : dbehavior) (d : cdom) (roots : list N)
+         (evs : list wevent) (revs : list revent),
+       input_ok d roots ->
+       plain_mode e ebeh dbeh d roots ->
+       hash_ok e ->
+       float_laws (xe_o e) ->
+       simple_dom d roots ->
+       xml_encode e ebeh d roots = Ok evs ->
+       channel evs = Ok revs ->
+       exists d1 : cdom,
+         xml_decode e dbeh revs = Ok d1 /\
+         xml_encode e ebeh d1 (children_of d1 0) =
+         xml_encode e ebeh (norm_dom (written d roots) norm_simple d) roots /\
+         (forall (evs2 : list wevent) (revs2 : list revent),
+          xml_encode e ebeh d1 (children_of d1 0) = Ok evs2 ->
+          channel evs2 = Ok revs2 ->
+          exists d2 : cdom,
+            xml_decode e dbeh revs2 = Ok d2 /\ xml_encode e ebeh d2 (children_of d2 0) = Ok evs2).
+Proof. exact xml_resave_simple_types. Qed.
+
+Theorem C07_encode_file_shape :
+  forall (d : db) (p : enc_params) (cmp : compression) (dom dom' : cdom) (ts : list tree),
+       Forall (agrees (children_of dom)) ts ->
+       NoDup (flat_map refs ts) ->
+       (forall r : N,
+        In r (flat_map refs ts) ->
+        find_inst dom r = find_inst dom' r /\ children_of dom r = children_of dom' r) ->
+       (sizes ts <= Datatypes.length dom)%nat ->
+       (sizes ts <= Datatypes.length dom')%nat ->
+       encode_file d p cmp dom (List.map root ts) = encode_file d p cmp dom' (List.map root ts).
+Proof. exact encode_file_shape. Qed.
+
+Theorem C07_bin_resave_generic :
+  forall (d : db) (ep : enc_params) (cmp : compression) (dom : cdom) (ts : list tree) 
+         (L : N -> N) (out nd : cdom) (nprops : N -> list (bytes * value)),
+       NoDup (List.map i_ref dom) ->
+       Forall (agrees (children_of dom)) ts ->
+       NoDup (flat_map refs ts) ->
+       ~ In 0 (flat_map refs ts) ->
+       BinRoundTrip.same_forest dom ts L out ->
+       (forall r : N,
+        In r (flat_map refs ts) ->
+        exists i' : inst,
+          find_inst out (L r) = Some i' /\
+          i_class i' = BinStructure.class_of dom r /\
+          i_name i' = i_name (BinRoundTrip.src dom r) /\
+          i_props i' =
+          XmlDeterminism.rename_props (fun x : N => if inW (flat_map refs ts) x then L x else 0) (nprops r)) ->
+       (forall (r : N) (kv : bytes * value),
+        In r (flat_map refs ts) ->
+        In kv (nprops r) ->
+        match snd kv with
+        | VRef x => x = 0 \/ In x (flat_map refs ts)
+        | VContent (CObject _) => False
+        | _ => True
+        end) ->
+       (forall r : N,
+        In r (flat_map refs ts) ->
+        find_inst nd r =
+        Some
+          {|
+            i_ref := r;
+            i_parent := if inW (List.map root ts) r then 0 else i_parent (BinRoundTrip.src dom r);
+            i_class := BinStructure.class_of dom r;
+            i_name := i_name (BinRoundTrip.src dom r);
+            i_props := nprops r
+          |}) ->
+       (forall r : N, In r (flat_map refs ts) -> children_of nd r = children_of dom r) ->
+       (Datatypes.length (flat_map refs ts) <= Datatypes.length nd)%nat ->
+       BinRename.db_defaults_null d = true ->
+       encode_file d ep cmp out (children_of out 0) = encode_file d ep cmp nd (List.map root ts).
+Proof. exact bin_resave_generic. Qed.
+
+Theorem C07_bin_resave :
+  forall (d : db) (ep : enc_params) (cmp : compression) (dom : cdom) (ts : list tree) 
+         (b : bytes) (p : dec_params) (st : ser_state),
+       BinRoundTrip.input_ok dom ts ->
+       BinRoundTrip.names_ok dom ->
+       BinRoundTrip.unknown_props d dom ->
+       ep_order ep [] = [] ->
+       encode_file d ep cmp dom (List.map root ts) = Ok b ->
+       add_instances d ep dom (List.map root ts) = Ok st ->
+       dp_lim p = None ->
+       (forall e : encoded, encode_chunks d ep dom (List.map root ts) = Ok e -> BinRoundTrip.frame_ok p cmp e) ->
+       BinRoundTrip.sstr_ok st ->
+       (forall x : BinRoundTrip.column,
+        In x (BinRoundTrip.cols (ss_types st)) ->
+        fst (snd x) <> NAME ->
+        BinRoundTrip.simple_col (pi_type (snd (snd x))) (BinRoundTrip.col_values ep dom x)) ->
+       BinRename.db_defaults_null d = true ->
+       exists out : cdom,
+         decode_file d p b = Ok out /\
+         BinRoundTrip.same_forest dom ts (BinRoundTrip.lbl st) out /\
+         encode_file d ep cmp out (children_of out 0) =
+         encode_file d ep cmp (bnorm_dom st (List.map root ts) dom) (List.map root ts).
+Proof. exact bin_resave. Qed.
+
+Theorem C07_xml_first_save_differs_dangling_ref_refuted :
+  let d :=
+         [{|
+            i_ref := 1; i_parent := 0; i_class := B "Folder"; i_name := B "f"; i_props := [(B "R", VRef 5)]
+          |}] in
+       match xml_save_load d [1] with
+       | Ok (evs1, d1) =>
+           match xml_save_load d1 (children_of d1 0) with
+           | Ok (evs2, d2) =>
+               evs2 <> evs1 /\
+               xml_encode e_rt EWriteUnknown d2 (children_of d2 0) = Ok evs2 /\
+               d1 =
+               [{|
+                  i_ref := 1;
+                  i_parent := 0;
+                  i_class := B "Folder";
+                  i_name := B "f";
+                  i_props := [(B "R", VRef 0)]
+                |}]
+           | _ => False
+           end
+       | _ => False
+       end.
+Proof. exact xml_first_save_differs_dangling_ref_refuted. Qed.
+
+Theorem C07_xml_nan_payload_invisible :
+  let d :=
+         [{|
+            i_ref := 1;
+            i_parent := 0;
+            i_class := B "Part";
+            i_name := B "p";
+            i_props := [(B "X", VFloat32 XmlCompound2.F32_NNAN)]
+          |}] in
+       match xml_save_load d [1] with
+       | Ok (evs1, d1) =>
+           match xml_save_load d1 (children_of d1 0) with
+           | Ok (evs2, d2) =>
+               evs2 = evs1 /\
+               d1 =
+               [{|
+                  i_ref := 1;
+                  i_parent := 0;
+                  i_class := B "Part";
+                  i_name := B "p";
+                  i_props := [(B "X", VFloat32 F32_NAN)]
+                |}] /\ d1 <> d /\ d2 = d1
+           | _ => False
+           end
+       | _ => False
+       end.
+Proof. exact xml_nan_payload_invisible. Qed.
+
+Theorem C07_bin_resave_chain_example :
+  match save_load_bin dom_bin2 [10; 40] with
+       | Ok (b1, o1) =>
+           match save_load_bin o1 (children_of o1 0) with
+           | Ok (b2, o2) =>
+               encode_file BinFileFacts.db0 BinFileFacts.ep0 None o2 (children_of o2 0) = Ok b2 /\
+               o2 = o1 /\
+               b2 = b1 /\
+               List.map i_ref o1 = [2; 3; 1] /\
+               children_of o1 0 = [2; 3] /\
+               encode_file BinFileFacts.db0 BinFileFacts.ep0 None
+                 (bnorm_dom
+                    match add_instances BinFileFacts.db0 BinFileFacts.ep0 dom_bin2 [10; 40] with
+                    | Ok s => s
+                    | _ => ser_state0
+                    end [10; 40] dom_bin2) [10; 40] = Ok b2
+           | _ => False
+           end
+       | _ => False
+       end.
+Proof. exact bin_resave_chain_example. Qed.
+
